@@ -50,7 +50,7 @@ VERIF = os.path.dirname(os.path.dirname(os.path.abspath(__file__)))
 REPO = os.environ.get("VERIF_REPO", "/repo")
 SPANS = os.path.join(VERIF, "tools", "spans", "target", "release", "spans")
 
-KEEP_DERIVES = ["Clone", "Copy", "PartialEq", "Eq"]
+KEEP_DERIVES = ["Clone", "Copy", "PartialEq", "Eq", "Default"]
 
 TRACING_MACROS = {
     "log_channel_event",   # macro_rules! in tcp/client.rs: expands to tracing::info! / tracing::debug! only
@@ -402,7 +402,7 @@ class Unit:
         s, e = it["span"]
         edits = []
         for a in it["attrs"]:
-            if src[a[0]:a[1]].startswith(b"#[repr("):
+            if src[a[0]:a[1]].startswith(b"#[repr(") or src[a[0]:a[1]].strip() == b"#[default]":
                 continue
             edits.append(Edit(a[0], a[1], lambda r: ""))
         if "keepvis" not in opts:
@@ -484,6 +484,16 @@ class Unit:
 
     # ------------------------------------------------------------------
     def do_fn(self, relfile, path, opts, parts, tpl_origin):
+        seg_start__ = len(self.segs)
+        try:
+            return self._do_fn(relfile, path, opts, parts, tpl_origin)
+        finally:
+            for f in self.functions:
+                if f["file"] == relfile and f["path"] == path and "segs" not in f:
+                    f["segs"] = [seg_start__, len(self.segs)]
+                    f["opts_tags"] = opts.get("tags", "")
+
+    def _do_fn(self, relfile, path, opts, parts, tpl_origin):
         src, it = find_item(relfile, "fn", path)
         self.sources[relfile] = hashlib.sha256(src).hexdigest()
         s, e = it["span"]
@@ -1051,6 +1061,99 @@ class Unit:
             else:
                 raise Unsupported(f"{origin}: unknown directive `{st}`")
 
+    # R25: a function that the code under contract calls but the template does not name (a helper added by a change) is pulled in
+    # WITHOUT a contract: its body is verified for the implicit obligations, its callers learn nothing about its result
+    def pull(self, pulls):
+        done = []
+        for (ty, fn) in pulls:
+            cands = []
+            for relfile in list(self.sources):
+                if relfile.startswith("@"):
+                    continue
+                try:
+                    _, _, items = spans_of(relfile)
+                except Exception:
+                    continue
+                impls = [x for x in items if x.get("kind") == "impl"]
+                for x in items:
+                    if x.get("kind") != "fn" or not cfg_on(x.get("cfg", [])):
+                        continue
+                    pth = x["path"]
+                    if not (pth == fn or pth.endswith("::" + fn)):
+                        continue
+                    if any(f["file"] == relfile and f["path"] == pth for f in self.functions):
+                        continue
+                    cont = next((im["span"] for im in impls if im["span"][0] <= x["span"][0] and x["span"][1] <= im["span"][1]), None)
+                    if ty:
+                        key = pth.rsplit("::", 1)[0] if "::" in pth else ""
+                        base = re.sub(r"<.*", "", key.split(" for ")[-1]).split("::")[-1].strip()
+                        if base != ty:
+                            continue
+                    cands.append((relfile, pth, x, cont, items))
+            if len(cands) != 1:
+                continue
+            relfile, pth, x, cont, items = cands[0]
+            impls = [im for im in items if im.get("kind") == "impl"]
+            neigh = None
+            for f in self.functions:
+                if f["file"] != relfile or "segs" not in f:
+                    continue
+                try:
+                    _, fit = find_item(relfile, "fn", f["path"].split("#")[0])
+                except Exception:
+                    continue
+                fcont = next((im["span"] for im in impls if im["span"][0] <= fit["span"][0] and fit["span"][1] <= im["span"][1]), None)
+                if fcont == cont and not x.get("trait_impl") and not fit.get("trait_impl") and (neigh is None or f["segs"][1] > neigh["segs"][1]):
+                    neigh = f
+            if x.get("trait_impl") and cont is not None:
+                # a trait impl method (e.g. `impl Default for T`): the whole impl wrapper is emitted right after the item of the self type
+                imrec = next(im for im in impls if im["span"] == cont)
+                src0 = spans_of(relfile)[0]
+                key = pth.rsplit("::", 1)[0]
+                tyname = re.sub(r"<.*", "", key.split(" for ")[-1]).split("::")[-1].strip()
+                at = next((i + 1 for i, (t_, o_) in enumerate(self.segs)
+                           if isinstance(o_, dict) and o_.get("kind") == "item" and o_.get("file") == relfile and o_.get("path", "").split("::")[-1] == tyname), None)
+                others = [y for y in items if y.get("kind") == "fn" and cont[0] <= y["span"][0] and y["span"][1] <= cont[1]]
+                if at is None or len(others) != 1:
+                    continue
+                before = len(self.segs)
+                hdr = src0[imrec["header"][0]:imrec["header"][1]].decode()
+                self.emit(hdr.strip() + " {\n", {"kind": "tpl", "tpl": "auto-pull"})
+                self.do_fn(relfile, pth, {"tags": ""}, {}, "auto-pull")
+                self.emit("}\n", {"kind": "tpl", "tpl": "auto-pull"})
+                new = self.segs[before:]
+                del self.segs[before:]
+                self.segs[at:at] = new
+                n = len(new)
+                for f in self.functions:
+                    if "segs" in f:
+                        if f["file"] == relfile and f["path"] == pth:
+                            f["segs"] = [at + 1, at + n - 1]
+                        elif f["segs"][0] >= at:
+                            f["segs"] = [f["segs"][0] + n, f["segs"][1] + n]
+                self.log("R25", relfile, src0, x["span"][0], f"{pth}: not named by the unit template, pulled in (with its impl header) without a contract")
+                done.append((ty, fn))
+                continue
+            if neigh is None:
+                continue
+            before = len(self.segs)
+            self.do_fn(relfile, pth, {"tags": neigh.get("opts_tags", "")}, {}, "auto-pull")
+            new = self.segs[before:]
+            del self.segs[before:]
+            at = neigh["segs"][1]
+            self.segs[at:at] = new
+            n = len(new)
+            for f in self.functions:
+                if "segs" in f and f is not neigh:
+                    if f["file"] == relfile and f["path"] == pth:
+                        f["segs"] = [at, at + n]
+                    elif f["segs"][0] >= at:
+                        f["segs"] = [f["segs"][0] + n, f["segs"][1] + n]
+            src = spans_of(relfile)[0]
+            self.log("R25", relfile, src, x["span"][0], f"{pth}: not named by the unit template, pulled in without a contract (called by code under contract)")
+            done.append((ty, fn))
+        return done
+
     def finish(self):
         text = "".join(t for t, _ in self.segs)
         starts = []
@@ -1075,11 +1178,13 @@ def origin_of(meta, line):
     return o
 
 
-def build(unit, outdir, vacuity=False):
+def build(unit, outdir, vacuity=False, pulls=None):
     tpl = os.path.join(VERIF, "units", unit, "unit.rs.tpl")
     u = Unit(unit, vacuity=vacuity)
     u.process(tpl)
+    pulled = u.pull(pulls) if pulls else []
     text, meta = u.finish()
+    meta["pulled"] = [list(x) for x in pulled]
     os.makedirs(outdir, exist_ok=True)
     suffix = "_vac" if vacuity else ""
     out_rs = os.path.join(outdir, f"{unit}{suffix}.rs")
